@@ -421,12 +421,12 @@ class BioConsert(RankAggAlgorithm, PairwiseBasedAlgorithm):
             # and do not need to be unified
             rankings_cons = [alg.compute_consensus_rankings(dataset, scoring_scheme, True).consensus_rankings[0]
                              for alg in self._starting_algorithms]
-            return BioConsert()._departure_rankings(Dataset(rankings_cons), scoring_scheme, False, False)
+            return BioConsert._bucket_ids_with_ids_of(dataset, rankings_cons)
 
         else:
 
             # get for each departure ranking the initial value of kemeny score with the input Dataset
-            bucket_ids: ndarray = dataset_to_consider.get_bucket_ids().transpose()
+            bucket_ids: ndarray = BioConsert._bucket_ids_with_ids_of(dataset, dataset_to_consider.rankings)
 
             # to be sure that all the departure rankings are different, use a dct
             distinct_rankings: Set[Tuple[int, ...]] = set()
@@ -445,6 +445,22 @@ class BioConsert(RankAggAlgorithm, PairwiseBasedAlgorithm):
                 # add ranking with all elements at position 0
                 rankings_departure = vstack((rankings_departure, zeros((1, dataset_to_consider.nb_elements))))
             return rankings_departure
+
+    @staticmethod
+    def _bucket_ids_with_ids_of(dataset: Dataset, rankings: List[Ranking]) -> ndarray:
+        """
+
+        :param dataset: the dataset whose int ids of elements must be used
+        :param rankings: complete rankings on the universe of the dataset
+        :return: a 2D ndarray, res[i][j] = bucket id in rankings[i] of the element whose id in dataset is j
+        """
+        mapping_elem_id: Dict[Element, int] = dataset.mapping_elem_id
+        res: ndarray = zeros((len(rankings), dataset.nb_elements), dtype=np_int32)
+        for id_ranking, ranking in enumerate(rankings):
+            for id_bucket, bucket in enumerate(ranking):
+                for element in bucket:
+                    res[id_ranking][mapping_elem_id[element]] = id_bucket
+        return res
 
     def get_full_name(self) -> str:
         return "BioConsert"
